@@ -11,12 +11,16 @@ def _walk(t):
             yield x
 
 
+# kinds whose BER encoder class declares supportIndefLenMode = False
+NO_INDEF_KINDS = ("BOOL", "INT", "ENUM", "NULL", "OID", "REAL")
+
+
 def has_expl_leaf(sid):
     """Schema `sid` contains an EXPLICIT tag applied to a type with a primitive encoding."""
     from vfw.catalogue import by_id
 
     for t in _walk(by_id(sid).t):
-        if t.kind in ("SEQ", "SET", "SEQOF", "SETOF", "CHOICE", "ANY"):
+        if t.kind not in NO_INDEF_KINDS:
             continue
         if any(m == "E" for (m, _c, _n) in t.tags):
             return True
@@ -29,4 +33,43 @@ def has_kind(sid, *kinds):
     return any(t.kind in kinds for t in _walk(by_id(sid).t))
 
 
-HELPERS = {"has_expl_leaf": has_expl_leaf, "has_kind": has_kind}
+def _value_has_expl_leaf(t, av):
+    from vfw.schema import same
+
+    k = t.kind
+    if k in ("SEQ", "SET"):
+        for (name, ct, mode, dflt) in t.comps:
+            if name not in av:
+                continue
+            if mode == "def" and same(ct, av[name], dflt):
+                continue
+            if _value_has_expl_leaf(ct, av[name]):
+                return True
+        return False
+    if k in ("SEQOF", "SETOF"):
+        for x in av:
+            if _value_has_expl_leaf(t.elem, x):
+                return True
+        return False
+    if k == "CHOICE":
+        name, inner = av
+        ct = [c for c in t.comps if c[0] == name][0][1]
+        return _value_has_expl_leaf(ct, inner)
+    if k not in NO_INDEF_KINDS:
+        return False
+    return any(m == "E" for (m, _c, _n) in t.tags)
+
+
+def stray_eoo(sid, args):
+    """The value built from `args` for catalogue schema `sid` contains (and actually encodes) a primitive
+    type under an EXPLICIT tag - the shape hit by finding F-stray-eoo in indefinite-length mode."""
+    from vfw.catalogue import by_id
+
+    if not has_expl_leaf(sid):
+        return False
+    e = by_id(sid)
+    slots = dict((k, v) for k, v in args.items() if k in e.params)
+    return _value_has_expl_leaf(e.t, e.mk(**slots))
+
+
+HELPERS = {"stray_eoo": stray_eoo, "has_expl_leaf": has_expl_leaf, "has_kind": has_kind}
